@@ -323,6 +323,8 @@ type Features struct {
 	InitialSync  bool // the history starts with a full synchronisation
 	CNI          bool // CNI-triggered SyncPodChains / SyncPodIPInIPSet operations
 	NonCanon     bool // ipBlock cidr / except values written with host bits set (10.244.1.3/16), as the API accepts them
+	Lookalikes   bool // foreign chains / sets whose names merely start with GLX
+	TypeConflict bool // prior state holds a set under one of galaxy's names with the other hash type
 	OffDirection bool // policies naming one direction in policyTypes while the spec also carries rules of the other
 	AddWithIP    bool // pods created during the history reach the informer already carrying their address (as after a relist); otherwise they are created without one and the kubelet reports it in an update
 }
@@ -349,6 +351,8 @@ func genFeatures(c *core.Choices) Features {
 		NonCanon:     c.Prob(1, 3),
 		AddWithIP:    c.Prob(1, 5),
 		OffDirection: c.Prob(1, 3),
+		Lookalikes:   c.Prob(1, 4),
+		TypeConflict: c.Prob(1, 8),
 	}
 }
 
